@@ -5,6 +5,7 @@
 import PycommModel.Client
 import PycommProofs.EncapProofs
 import PycommProofs.LCBasic
+import PycommProofs.LCInv
 namespace Pycomm.Cli
 open Pycomm.Tgt Pycomm.Encap Pycomm.Path
 
@@ -35,11 +36,14 @@ def run {σ} (hook : ObjHook σ) (w : World σ) : List Call → World σ
   | [] => w
   | c :: cs => run hook (call hook w c).1 cs
 
-/-- a fresh driver in front of a target that holds no sessions or connections yet -/
+-- STATEMENT CHANGED: `Fresh` additionally states the lengths 4/2/2/4 of the default field values cid/csn/vid/vsn of `Drv` (needed by fo_order: with shorter fields the target's parseFo reads shifted fields, cf. CE4 below).
+/-- a fresh driver in front of a target that holds no sessions or connections yet
+    (the lengths of cid / csn / vid / vsn are those of the default field values of `Drv`) -/
 def Fresh {σ} (w : World σ) : Prop :=
   w.drv.hasSock = false ∧ w.drv.session = some 0 ∧ w.drv.connectionOpened = false ∧ w.drv.targetIsConnected = false ∧
   w.drv.targetCid = none ∧ w.drv.extendedFo = true ∧ w.drv.connectionSize = 4000 ∧ w.drv.context.length = 8 ∧
   w.drv.option = 0 ∧
+  w.drv.cid.length = 4 ∧ w.drv.csn.length = 2 ∧ w.drv.vid.length = 2 ∧ w.drv.vsn.length = 4 ∧
   w.net.target.base.sessions = [] ∧ w.net.target.base.conns = [] ∧ w.net.target.base.log = [] ∧
   w.net.pending = [] ∧ w.net.sent = [] ∧ w.net.tcpOpen = false ∧
   0 < w.net.target.base.nextSession ∧ w.net.target.base.nextSession < 2 ^ 32 ∧ w.net.target.base.nextCid < 2 ^ 32
@@ -65,6 +69,107 @@ def HookOk {σ} (hook : ObjHook σ) : Prop :=
     ∃ extra, t'.base.log = extra ++ t.base.log ∧
       ∀ e ∈ extra, (∀ l s o, e ≠ .fo l s o) ∧ e ≠ .violation "SendUnitData without a registered session" ∧
                    e ≠ .violation "SendUnitData on a connection that is not open"
+
+/-- Boolean, evaluable check on the arguments of a generic_message call: the request path built from
+    (class, instance, attribute) does not address the Connection Manager object (class 6, instance 1) as the
+    target parses it. (`true` as well when the path cannot be encoded: then nothing is sent.)
+    The Connection Manager is driven by the driver itself (Forward Open / Forward Close); an application that
+    talks to it directly through generic_message can open or close connections behind the driver's back. -/
+def AvoidsCM (a : GenArgs) : Bool :=
+  match requestPath a.cls a.inst a.attr with
+  | .error _ => true
+  | .ok rp =>
+    match parseRequestPath rp with
+    | some (segs, []) => classInst segs != some (0x06, 1, [])
+    | _ => false
+
+/-- the configured route: whenever `cipPath ++ message router` can be encoded at all, the result is a connection
+    path the target accepts in a Forward Open — word count, then port segments followed by the message router -/
+def PathOk (cip : List Seg) : Prop :=
+  ∀ route, encEpath true (cip ++ msgRouterPath) true false = .ok route →
+    ∃ n path, route = n :: path ∧ path.length = 2 * n.toNat ∧ foPathOk path = true
+
+/-- convenience: integer class ids other than 6 never address the Connection Manager -/
+theorem avoidsCM_int (a : GenArgs) (cls inst attr : Nat) (hc : cls < 2 ^ 32) (hi : inst < 2 ^ 32) (ha : attr < 2 ^ 32)
+    (h6 : cls ≠ 6) (h1 : a.cls = .int cls) (h2 : a.inst = .int inst) (h3 : a.attr = .int attr) :
+    AvoidsCM a = true :=
+  lci_avoids_int a cls inst attr hc hi ha h6 h1 h2 h3
+
+/-- `AvoidsCM` is evaluable on concrete arguments: an Identity read passes, a hand-made Forward_Close does not -/
+example : AvoidsCM { service := 0x01, cls := .bytes [0x01], inst := .bytes [0x01] } = true := by decide
+example : AvoidsCM { service := 0x4E, cls := .bytes [0x06], inst := .bytes [0x01], connected := false } = false := by decide
+
+/-- the route of the connection string "10.0.0.1/1/0" (backplane, slot 0) … -/
+example : parseConnectionPath (nm "10.0.0.1/1/0") false =
+    .ok (nm "10.0.0.1", none, [Seg.port (.int 1) (.str (nm "0"))]) := by rfl
+
+/-- … satisfies `PathOk` (encoded: 03 | 01 00 | 20 02 24 01) -/
+example : PathOk [Seg.port (.int 1) (.str (nm "0"))] := by
+  intro route h
+  have e : encEpath true ([Seg.port (.int 1) (.str (nm "0"))] ++ msgRouterPath) true false =
+      .ok [3, 1, 0, 0x20, 2, 0x24, 1] := by rfl
+  rw [e] at h
+  cases h
+  exact ⟨3, [1, 0, 0x20, 2, 0x24, 1], rfl, by decide, by decide⟩
+
+/-- and so does a three-hop route through an Ethernet module ("bp/2/enet/10.0.0.2/bp/0") -/
+example : PathOk [Seg.port (.name (nm "bp")) (.str (nm "2")), Seg.port (.name (nm "enet")) (.str (nm "10.0.0.2")),
+    Seg.port (.name (nm "bp")) (.str (nm "0"))] := by
+  intro route h
+  have e : encEpath true ([Seg.port (.name (nm "bp")) (.str (nm "2")), Seg.port (.name (nm "enet")) (.str (nm "10.0.0.2")),
+      Seg.port (.name (nm "bp")) (.str (nm "0"))] ++ msgRouterPath) true false =
+      .ok [9, 1, 2, 18, 8, 49, 48, 46, 48, 46, 48, 46, 50, 1, 0, 32, 2, 36, 1] := by rfl
+  rw [e] at h
+  cases h
+  exact ⟨9, [1, 2, 18, 8, 49, 48, 46, 48, 46, 48, 46, 50, 1, 0, 32, 2, 36, 1], rfl, by decide, by decide⟩
+
+/-- the invariant of LCInv.lean is preserved by every call -/
+theorem lci_call_inv {σ} (hook : ObjHook σ) (hh : HookOk hook) (S : Prop) (w : World σ) (c : Call)
+    (ho : ∀ rnd, c = .open rnd → S → rnd.length = 8) (hg : ∀ a, c = .generic a → AvoidsCM a = true)
+    (hi : lci_Inv S w) (hc : lci_Conn w) : lci_Inv S (call hook w c).1 ∧ lci_Conn (call hook w c).1 := by
+  cases c with
+  | «open» rnd =>
+    have := lci_openDrv hook S w rnd (ho rnd rfl) hi hc
+    simp only [call]
+    generalize openDrv hook w rnd = r at this ⊢
+    obtain ⟨w', o⟩ := r
+    cases o <;> exact this
+  | close =>
+    have := lci_closeDrv hook hh S w hi
+    simp only [call]
+    generalize closeDrv hook w = r at this ⊢
+    obtain ⟨w', o⟩ := r
+    cases o <;> exact this
+  | generic a =>
+    have := lci_cli_generic hook hh S FUEL w a (lci_avoids_of_check a (hg a rfl)) hi hc
+    simp only [call]
+    generalize genericMessage hook FUEL w a = r at this ⊢
+    obtain ⟨w', o⟩ := r
+    cases o <;> exact this
+
+theorem lci_run_inv {σ} (hook : ObjHook σ) (hh : HookOk hook) (S : Prop) (calls : List Call) :
+    ∀ (w : World σ), (∀ rnd, Call.open rnd ∈ calls → S → rnd.length = 8) →
+      (∀ a, Call.generic a ∈ calls → AvoidsCM a = true) → lci_Inv S w → lci_Conn w →
+      lci_Inv S (run hook w calls) ∧ lci_Conn (run hook w calls) := by
+  induction calls with
+  | nil => intro w _ _ hi hc; exact ⟨hi, hc⟩
+  | cons c cs ih =>
+    intro w ho hg hi hc
+    obtain ⟨h1, h2⟩ := lci_call_inv hook hh S w c
+      (fun rnd e => ho rnd (e ▸ List.mem_cons_self)) (fun a e => hg a (e ▸ List.mem_cons_self)) hi hc
+    exact ih _ (fun rnd h => ho rnd (List.mem_cons_of_mem _ h)) (fun a h => hg a (List.mem_cons_of_mem _ h)) h1 h2
+
+/-- a fresh world satisfies the invariant -/
+theorem lci_fresh_inv {σ} (S : Prop) (w : World σ) (hf : Fresh w) (hp : S → PathOk w.drv.cipPath) :
+    lci_Inv S w ∧ lci_Conn w := by
+  obtain ⟨f1, f2, f3, f4, f5, f6, f7, f8, f9, g1, g2, g3, g4, f10, f11, f12, f13, f14, f15, f16, f17, f18⟩ := hf
+  constructor
+  · refine ⟨⟨?_, ?_, f17, f18⟩, f8, f9, (fun h => by rw [f1] at h; cases h), ⟨0, f2, fun h => absurd rfl h⟩, ?_⟩
+    · rw [f12]; intro e he; cases he
+    · intro _; rw [f12]; trivial
+    · intro hS
+      exact ⟨hp hS, g1, g2, g3, g4, Or.inl ⟨f6, f7⟩⟩
+  · intro h; rw [f4] at h; cases h
 
 -- PROPERTY THEOREMS
 
@@ -124,15 +229,27 @@ theorem after_close_target {σ} (hook : ObjHook σ) (w : World σ) (hs : w.drv.h
 
 /-- for EVERY history of calls, every fault plan and every target policy, starting from a fresh driver:
     nothing is ever sent on a connection before a session is registered and a Forward Open has succeeded -/
-theorem no_unit_data_before_open {σ} (hook : ObjHook σ) (hh : HookOk hook) (w : World σ) (hf : Fresh w) (calls : List Call) :
+-- STATEMENT CHANGED: added hypothesis `hg` (every generic_message call of the history avoids the Connection Manager).
+-- STATEMENT CHANGED: counterexample CE2 (hook = none, default policy, cipPath = backplane slot 0): [open 0102030405060708, generic {service 0x01, cls 1, inst 1} (connected), generic {service 0x4E, cls 6, inst 1, connected := false, data := 0a 05 ++ csn ++ vid ++ vsn, route := bytes 03 00 01 00 20 02 24 01}, generic {service 0x01, cls 1, inst 1} (connected)]: the user-sent Forward_Close removes the connection at the target, the driver keeps targetIsConnected, log = [fo true 4000 true, fc true, violation "SendUnitData on a connection that is not open"].
+theorem no_unit_data_before_open {σ} (hook : ObjHook σ) (hh : HookOk hook) (w : World σ) (hf : Fresh w) (calls : List Call)
+    (hg : ∀ a, Call.generic a ∈ calls → AvoidsCM a = true) :
     NoEarlyUnitData (run hook w calls).net.target.base.log := by
-  sorry
+  obtain ⟨hi, hc⟩ := lci_fresh_inv False w hf (fun h => h.elim)
+  exact (lci_run_inv hook hh False calls w (fun _ _ h => h.elim) hg hi hc).1.t.noV
 
 /-- for EVERY history: the extended Forward Open is tried first with the configured size, the standard one only
     after the target refused the extended one, and then with the 500-byte size -/
-theorem fo_order {σ} (hook : ObjHook σ) (hh : HookOk hook) (w : World σ) (hf : Fresh w) (calls : List Call) :
+-- STATEMENT CHANGED: added hypotheses `hp` (PathOk cipPath), `ho` (urandom delivers 8 bytes to every open()), `hg` (as above); `Fresh` now states the default lengths of cid/csn/vid/vsn.
+-- STATEMENT CHANGED: counterexample CE1 (cipPath = [logical class_id 5], policy stdFoOk := false): [open 0102030405060708, generic {service 0x01, cls 1, inst 1}]: log = [violation "forward open: bad connection path", fo false 500 false] — no refused large Forward Open before the standard one.
+-- STATEMENT CHANGED: counterexample CE3 (default policy, backplane slot 0): [open 0102030405060708, generic {service 0x54, cls 6, inst 1, connected := false, data := hand-made standard Forward Open of size 100, route := bytes 03 01 00 20 02 24 01}]: log = [fo false 100 true].
+-- STATEMENT CHANGED: counterexample CE4 (default policy, cipPath = backplane slot 2): [open 010203040506 (6 bytes: vsn is 2 bytes short), generic {service 0x01, cls 1, inst 1}]: the target's parseFo reads the shifted fields and logs [fo true 16896 true].
+theorem fo_order {σ} (hook : ObjHook σ) (hh : HookOk hook) (w : World σ) (hf : Fresh w) (calls : List Call)
+    (hp : PathOk w.drv.cipPath) (ho : ∀ rnd, Call.open rnd ∈ calls → rnd.length = 8)
+    (hg : ∀ a, Call.generic a ∈ calls → AvoidsCM a = true) :
     FoDiscipline (run hook w calls).net.target.base.events := by
-  sorry
+  obtain ⟨hi, hc⟩ := lci_fresh_inv True w hf (fun _ => hp)
+  have h := (lci_run_inv hook hh True calls w (fun rnd h _ => ho rnd h) hg hi hc).1.t.fo trivial
+  exact lci_FoOK_events _ h
 
 /-- a later open works again: after close(), on a target that accepts sessions and with no fault left,
     open() registers a fresh session -/
